@@ -239,7 +239,7 @@ def _mutations(fn):
     return out
 
 
-@task("effects:no-shared-mutable-state", props=["C07", "C13", "C15", "C16", "C18"], functions=[], replay=None)
+@task("effects:no-shared-mutable-state", props=["C07", "C13", "C15", "C16", "C18"], functions=[], replay="shared_state")
 def t_shared_state():
     """no function mutates a module-level container, rebinds a module-level name, or mutates a container that exists only as a CLASS attribute (shared by all instances):
     every run and every event / market / agent instance works on state created for it"""
